@@ -565,3 +565,53 @@ def run_namebuf(prog, rep):
     if n < 3:
         raise AnalysisBroken('R-NAMEBUF: only %d name buffers found' % n)
     return rule
+
+
+def run_bound_belief(prog, rep):
+    """contradiction rule: a function that tests i against X.size() believes X can be shorter than i; every X[i] in that function
+    must then be covered by the test (Engler et al.: check-then-use / use-then-check)"""
+    rule = rep.rule('R-BOUNDBELIEF', 'where a function compares an index with the size of a container, every element access of that container at that index is covered by the comparison (no use before the check)', floor=4)
+    sem = Sem(prog)
+    seen = set()
+    n = 0
+
+    def flat(t, out):
+        if isinstance(t, tuple):
+            out.append(t)
+            for y in t:
+                flat(y, out)
+        return out
+    for f in sorted(prog.funcs.values(), key=lambda f: (f.file, f.line)):
+        if f.body is None or not f.q.startswith('nix::') or (f.file, f.line) in seen:
+            continue
+        seen.add((f.file, f.line))
+        beliefs = {}
+        for x in f.walk():
+            if x.k in ('if', 'cond', 'while'):
+                c = x.c[2] if x.k == 'if' else x.c[0]
+                if c is None:
+                    continue
+                for t in flat(term(unwrap(c)), []):
+                    if len(t) == 4 and t[0] == 'b' and t[1] in ('<', '>=', '>', '<='):
+                        for i, s in ((t[2], t[3]), (t[3], t[2])):
+                            if isinstance(s, tuple) and s[:2] == ('m', 'size') and isinstance(i, tuple) and i[0] == 'v':
+                                beliefs[(s[2], i)] = x
+        if not beliefs:
+            continue
+        for x in f.walk():
+            if x.k == 'call' and x.get('op') == '[]' and len(x.c) == 2:
+                b, i = term(unwrap(x.c[0])), term(unwrap(x.c[1]))
+                if (b, i) not in beliefs:
+                    continue
+                n += 1
+                facts = sem.facts_at(f, x.id)
+                sz = ('m', 'size', b)
+                g = [1 for t, pol in facts if isinstance(t, tuple) and len(t) == 4 and t[0] == 'b' and (
+                    (t[1] == '<' and pol and t[2] == i and t[3] == sz) or (t[1] == '>=' and not pol and t[2] == i and t[3] == sz) or
+                    (t[1] == '>' and pol and t[3] == i and t[2] == sz) or (t[1] == '<=' and not pol and t[3] == i and t[2] == sz))]
+                k = len([y for y in f.walk() if y.k == 'call' and y.get('op') == '[]' and y.id < x.id])
+                rule.check(bool(g), '%s%s|%s|%d' % (re.sub(r'<.*', '', f.q), f.sig[:60], x.src(24), k), rep.where(x), f.label(), 'covered by the size test at line %s' % beliefs[(b, i)].l,
+                           '%s is read although the test against %s.size() (line %s) does not cover this access: for a shorter container this is an out-of-bounds read' % (x.src(30), x.c[0].src(20), beliefs[(b, i)].l))
+    if n < 4:
+        raise AnalysisBroken('R-BOUNDBELIEF: only %d tested accesses found' % n)
+    return rule
